@@ -33,7 +33,13 @@ class IndexedGrammar:
         self.non_terminals = set(self.non_terminals)
         # We cache the marked items in case of future update of the query
         self.marked = {}
-        # Initialize the marked symbols
+        self._marked_with_rules = []
+        self._initialize_marked()
+
+    def _initialize_marked(self):
+        """ Initialize the marked symbols """
+        self.marked = {}
+        self._marked_with_rules = list(self.rules.rules)
         # Mark the identity
         for non_terminal_a in self.non_terminals:
             self.marked[non_terminal_a] = set()
@@ -150,6 +156,11 @@ class IndexedGrammar:
         is_empty : bool
             Whether the grammar is empty or not
         """
+        # What was marked with a rule which was removed since is not valid
+        if any(rule not in self.rules.rules
+               for rule in self._marked_with_rules):
+            self._initialize_marked()
+        self._marked_with_rules = list(self.rules.rules)
         # To know when no more modification are done
         was_modified = True
         while was_modified:
